@@ -103,8 +103,10 @@ def run(ctx):
     c = [e for e in I.events if e.kind == 'call' and e.data.get('name') == 'frame.Frame.from_data']
     ctx.require(c, 'get_slice no longer builds the slice with from_data')
     b = c[0].data['bound']
-    ctx.formula('FORMULA', 'slice fch1 == fmin + l*df (ascending) / fmin + (r-1)*df (descending)', fi, b.get('fch1', NONE),
-                ctx.spec(fi, 'ITE(fr.ascending, fr.fmin + l * fr.df, fr.fmin + (r - 1) * fr.df)', typed_params=TP), node=c[0].node,
+    # (numpy index semantics on both sides: a negative bound counts from the end, as it does for the data columns)
+    ctx.formula('FORMULA', 'slice fch1 == frequency of the first kept column: fs[l] (ascending) / fs[r-1] (descending)', fi,
+                b.get('fch1', NONE),
+                ctx.spec(fi, 'ITE(fr.ascending, fr.fs[l], fr.fs[r - 1])', typed_params=TP), node=c[0].node,
                 construct='from_data(fch1=...) [slice]')
     ctx.formula('FORMULA', 'slice data == data[:, l:r]', fi, b.get('data', NONE), ctx.spec(fi, 'fr.data[:, l:r]', typed_params=TP),
                 node=c[0].node, construct='from_data(data=...) [slice]')
